@@ -16,7 +16,7 @@ def sh(cmd, cwd=None):
     return p.returncode, p.stdout
 
 
-ALL_PROPS = ["C01", "C02", "C03", "C04", "C05", "C06", "C07", "C09", "C10", "C11", "C12", "C13", "C14", "C15", "C17", "C18", "C19", "C20"]
+ALL_PROPS = ["C01", "C02", "C03", "C04", "C05", "C06", "C07", "C08", "C09", "C10", "C11", "C12", "C13", "C14", "C15", "C16", "C17", "C18", "C19", "C20"]
 
 
 def main():
@@ -34,7 +34,7 @@ def main():
     for i in ids:
         d = ROOT + "/seeded/" + i
         meta = json.load(open(d + "/meta.json"))
-        prop = meta.get("breaks_property") or i.replace("R2-", "").split("-")[0]
+        prop = meta.get("breaks_property") or i.replace("R2-", "").replace("R3-", "").split("-")[0]
         try:
             rc, o = sh("git -C /repo apply --whitespace=nowarn %s/patch.diff" % d)
             if rc != 0:
